@@ -400,6 +400,28 @@ func (w *world) plantSlowName(g simrt.Gen, ps *peerSpec) {
 	}
 }
 
+// plantBackoffPair adds a hanging public address A (keeps a dial worker alive for 15 s) and a private
+// TCP address B that is refused at once (lands in back-off) to the peer's set ("back-off rejoin" stratum).
+func (w *world) plantBackoffPair(g simrt.Gen, ps *peerSpec) {
+	pi := ps.idx
+	add := func(t *target) {
+		t.key = canon(t.key)
+		t.peer = pi
+		w.targets[t.key] = t
+		ps.targets = append(ps.targets, t)
+		ps.known[t.key] = true
+		ps.raw = append(ps.raw, t.key)
+	}
+	aip, _ := ipFor(pi, 30, 1)
+	if g.Bool() {
+		add(&target{kind: tQUIC, key: fmt.Sprintf("/ip4/%s/udp/4001/quic-v1", aip), ip: aip, port: 4001, public: true, script: sHang})
+	} else {
+		add(&target{kind: tTCP, key: fmt.Sprintf("/ip4/%s/tcp/4001", aip), ip: aip, port: 4001, public: true, script: sHang})
+	}
+	bip, _ := ipFor(pi, 31, 0)
+	add(&target{kind: tTCP, key: fmt.Sprintf("/ip4/%s/tcp/4001", bip), ip: bip, port: 4001, script: sRefuse})
+}
+
 // ---- scripted DNS resolver -----------------------------------------------------------------
 
 type resolver struct{ w *world }
